@@ -205,6 +205,8 @@ def discharge(ob: Obligation, timeout_ms=None, witness_terms=None):
     nvc = len(ob.vcs)
     for vc in ob.vcs:
         r = solve.check_vc(vc.pc, vc.goal, timeout_ms)
+        if r.status == "unknown":
+            r = _split_conjuncts(vc, timeout_ms, r)
         secs += r.seconds
         backends[r.backend] = backends.get(r.backend, 0) + 1
         if r.status == "refuted":
@@ -218,6 +220,33 @@ def discharge(ob: Obligation, timeout_ms=None, witness_terms=None):
             reason = r.reason
     return {"id": ob.oid, "kind": ob.kind, "status": status, "vcs": nvc, "seconds": round(secs, 4),
             "backends": backends, "witness": witness, "reason": reason, "loc": ob.loc}
+
+
+def _split_conjuncts(vc, timeout_ms, first):
+    """A conjunctive goal the solver leaves unknown is retried conjunct by conjunct (valid iff every conjunct is valid)."""
+    def flat(e):
+        if z3.is_and(e):
+            out = []
+            for ch in e.children():
+                out.extend(flat(ch))
+            return out
+        return [e]
+    parts = flat(vc.goal) if z3.is_expr(vc.goal) else []
+    if len(parts) < 2:
+        return first
+    total = first.seconds
+    worst = None
+    for g in parts:
+        r = solve.check_vc(vc.pc, g, timeout_ms)
+        total += r.seconds
+        if r.status == "refuted":
+            r.seconds = total
+            return r
+        if r.status == "unknown":
+            worst = r
+    res = worst if worst is not None else solve.VCResult("proved", "z3", total)
+    res.seconds = total
+    return res
 
 
 def _decode(model, t):
